@@ -168,6 +168,14 @@ static void case_spaces(Rng& rng, uint64_t index)
 		if(rng.coin(0.2))
 			a = 0.0;
 	}
+	if(index % 4 == 2 && rng.coin(0.5))
+	{
+		// a range that is narrow compared with its position (1e-14..1e-9 of |min|; at least 64 doubles per step): no relative "min equals max" test may fire
+		double rel = rng.loguni(1e-14, 1e-9);
+		b = a * (1.0 + rng.sign() * rel);
+		if(std::fabs(b - a) < 64 * ulp(a) * std::max(steps, 2u))
+			b = a + rng.sign() * 64 * ulp(a) * std::max(steps, 2u);
+	}
 	if(rng.coin(0.1))
 		b = a;
 	if(a == 0.0 && b == 0.0)
@@ -367,8 +375,16 @@ static void case_statistics(Rng& rng, uint64_t index)
 	double loc = rng.coin(0.5) ? 0.0 : rng.mag(1e-2, 1e3), sc = rng.loguni(1e-3, 1e3);
 	if(index % 4 == 3)
 		loc = rng.sign() * sc * rng.loguni(1e2, 1e5);	// offset large compared with the scatter (conditioning of one-pass formulas)
+	bool tiny_data = index % 16 == 6;
 	for(auto& x : d)
 		x = loc + sc * (rng.coin(0.2) ? std::round(rng.uni(-3, 3)) : rng.normal());
+	if(tiny_data)
+	{
+		// values at the bottom of the double range: small multiples of the smallest subnormal (halving them is not exact)
+		for(auto& x : d)
+			x = std::ldexp((double) rng.irange(-40, 40), -1074);
+		loc = 0, sc = 4.9e-324;
+	}
 	set_params(J().i("n", n).d("location", loc).d("scale", sc).vec("data", d));
 	hash_param_u(n), hash_param(d[0]), hash_param(d[n - 1]);
 	if(n >= 2)
@@ -386,6 +402,12 @@ static void case_statistics(Rng& rng, uint64_t index)
 	double medref = (n % 2) ? srt[n / 2] : (srt[n / 2 - 1] + srt[n / 2]) / 2;
 	double med	  = Median(work);
 	require("median-definition", near_ulps(med, medref, 2) || (n % 2 == 0 && std::fabs(med - medref) <= 2 * EPS * std::max(std::fabs(srt[n / 2 - 1]), std::fabs(srt[n / 2]))), [&] { return J().d("Median", med).d("reference", medref); });
+	// whatever way the two central values are averaged, the result cannot leave the interval they span (also not by a rounding quantum at the bottom of the
+	// double range, where 0.5*a + 0.5*b does)
+	{
+		double lo_c = (n % 2) ? srt[n / 2] : srt[n / 2 - 1], hi_c = srt[n / 2];
+		require("median-between-the-central-order-statistics", med >= lo_c && med <= hi_c, [&] { return J().d("Median", med).d("lower_central", lo_c).d("upper_central", hi_c); });
+	}
 	std::vector<double> work_sorted = work;
 	std::sort(work_sorted.begin(), work_sorted.end());
 	require("median-only-permutes-its-argument", work_sorted == srt, [&] { return J().i("n", n); });
@@ -403,13 +425,14 @@ static void case_statistics(Rng& rng, uint64_t index)
 		x += t;
 	for(auto& x : dk)
 		x *= k;
-	double tol_t = 4 * n * EPS * ((double) amax + std::fabs(t));
+	const double Q = 8 * 4.9406564584124654e-324;	// a few quanta of the subnormal range: relative tolerances underflow to zero there
+	double tol_t = 4 * n * EPS * ((double) amax + std::fabs(t)) + Q;
 	judge("mean-translation-law", std::fabs(Arithmetic_Mean(dt) - (mean + t)), 2 * tol_t, [&] { return J().d("shift", t); });
 	judge("mean-scaling-law", std::fabs(Arithmetic_Mean(dk) - k * mean), 2 * std::fabs(k) * tol_m + 1e-300, [&] { return J().d("factor", k); });
 	{
 		std::vector<double> w1 = dt, w2 = dk;
 		double m1 = Median(w1), m2 = Median(w2);
-		judge("median-translation-law", std::fabs(m1 - (med + t)), 4 * EPS * ((double) amax + std::fabs(t)), [&] { return J().d("shift", t); });
+		judge("median-translation-law", std::fabs(m1 - (med + t)), 4 * EPS * ((double) amax + std::fabs(t)) + Q, [&] { return J().d("shift", t); });
 		judge("median-scaling-law", std::fabs(m2 - k * med), 4 * EPS * std::fabs(k) * (double) amax + 1e-300, [&] { return J().d("factor", k); });
 	}
 	if(n >= 2)
